@@ -233,6 +233,10 @@ def gen(rng, nrng, tier):
                 yield ("win", {"name": name, "N": N, "kw": {key: v}})
     # (nbar=8, sll=-20) is left out: there the Taylor design itself is no longer a monotone taper (edge samples exceed the
     # centre by 1.3e-4; scipy.signal.windows.taylor agrees to 1e-16), so "maximum <= 1" is not a statement about the code
+    # one of the two Taylor parameters given, the other left to its documented default
+    for N in (3, 16, 33):
+        for kw in ({"nbar": 3}, {"nbar": 6}, {"sll": -40.0}, {"sll": -25.0}):
+            yield ("win", {"name": "taylor", "N": N, "kw": kw})
     for nbar, sll in ((2, -20.0), (8, -80.0), (2, -80.0), (8, -22.0), (7, -20.0), (1, -30.0)):
         for N in (2, 9, 64):
             yield ("win", {"name": "taylor", "N": N, "kw": {"nbar": nbar, "sll": sll}})
